@@ -111,8 +111,8 @@ CLAIMED["C17"]["text"] += (" Every documented transition of the life-cycle state
 CLAIMED["C17"]["tech"] += "; TLC-generated call histories of the life-cycle state machine under ASan/UBSan"
 for pid in ("C03", "C10"):
     CLAIMED[pid]["text"] += " A subset of the scenarios is re-run on 3 MPI ranks (5 in thorough) and the events recorded on every rank are validated with the same trace specification."
-for pid in ("C08", "C12"):
-    CLAIMED[pid]["text"] += " A subset of the scenarios is re-run on 3 MPI ranks and the observables of every rank are judged by the same specification (C08: against the single-rank references in ObsTrace.tla; C12: against the exact propagators of Wick.tla)."
+for pid in ("C08", "C12", "C02"):
+    CLAIMED[pid]["text"] += " A subset of the scenarios is re-run on 3 MPI ranks and the observables of every rank are judged by the same specification (C08: against the single-rank references in ObsTrace.tla; C12: against the exact propagators of Wick.tla; C02: the root's tables and every rank's on-demand values against Lehmann.tla's exact family)."
 CLAIMED["C18"]["text"] += " In the relabelling tier chi is also read through a TwoParticleGFContainer (stored component or alias, depending on labels and ordering mode)."
 CLAIMED["C16"]["text"] += " Job ids are an arbitrary set (Dispatcher.tla constant JobIds), model-checked and replayed with sparse id lists for the list constructor."
 hooks_file = os.path.join(VERIF, "hooks.json")
